@@ -380,6 +380,15 @@ func init() {
 			rtCase(cw, ms, true, string(g.bytes(1+g.pick(32))), g.time(), "mixed-checksum-stream")
 			rtCrcPattern = nil
 		}
+		// trees nested 100 … 5000 levels deep
+		for _, d := range []int{100, 255, 256, 257, 300, 1000, 5000} {
+			m := rscp.Message{Tag: 0x00800001, DataType: rscp.UChar8, Value: uint8(7)}
+			for k := 0; k < d; k++ {
+				m = rscp.Message{Tag: rscp.Tag(0x00800002 + uint32(k%5)), DataType: rscp.Container, Value: []rscp.Message{m}}
+			}
+			rtCase(cw, [][]rscp.Message{{m}}, d%2 == 0, "k", g.time(), fmt.Sprintf("nested depth=%d", d))
+		}
+		concurrentUnknownTags(cw, "rt")
 		// strings of equal length and equal CRC-32 (found by a birthday search), one after the other in one process:
 		// decoded values never depend on what was decoded before
 		{
@@ -824,6 +833,21 @@ func init() {
 				}
 			}
 		}
+		// the 12 time bytes of the header are not part of well-formedness: every value is accepted
+		for _, sec := range []uint64{0, 1, 0xffffffffffffffff, 0x7fffffffffffffff, 0x8000000000000000, 253402300800} {
+			for _, ns := range []uint32{0, 999999999, 1000000000, 0x7fffffff, 0x80000000, 0xffffffff} {
+				p := padBlocks(frameBytes(itemBytes(0x00800005, 3, []byte{9}), ns%2 == 0, 0, 0))
+				binary.LittleEndian.PutUint64(p[4:], sec)
+				binary.LittleEndian.PutUint32(p[12:], ns)
+				if p[3]&0x10 != 0 {
+					fixCRC(p)
+				}
+				anyCase(cw, p, "N header-time-edge")
+			}
+		}
+		// several goroutines decode frames with tags the vocabulary does not know — every frame with tags nobody has seen
+		// before — at the same time (each with its own decoder state): the results are what the bytes say
+		concurrentUnknownTags(cw, "any")
 		// deeply nested containers: decoding has to stay linear in the size of the frame
 		depths := []int{25, 40, 64, 200, 1000, 9358} // 9358 levels of 7 bytes + one 8-byte item = the largest frame
 		if thorough {
@@ -903,6 +927,12 @@ func valCase(cw *caseWriter, ms []rscp.Message, label string) {
 		prop = "FAIL C05 validateRequests panics"
 	} else if after := msgsString(ms); after != before {
 		prop = "FAIL * validateRequests modified the caller's messages: " + trunc(after, 120)
+	} else if strings.HasPrefix(label, "nested depth=") {
+		var d int
+		fmt.Sscanf(label, "nested depth=%d", &d)
+		if (d <= 9362) != (impl == "ok ") {
+			prop = fmt.Sprintf("FAIL C05 a request nested %d levels deep (it %s the 16-bit length fields) gives %s", d, map[bool]string{true: "fits", false: "does not fit"}[d <= 9362], impl)
+		}
 	}
 	cw.add("val "+before, impl, nt(!strings.HasPrefix(label, "valid items=1 "))+" "+label, prop)
 }
@@ -972,6 +1002,15 @@ func init() {
 				valCase(cw, []rscp.Message{m}, fmt.Sprintf("named-type=%d dt=%d top", k, dt))
 				valCase(cw, []rscp.Message{{Tag: rscp.BAT_REQ_DATA, DataType: rscp.Container, Value: []rscp.Message{m}}}, fmt.Sprintf("named-type=%d dt=%d nested", k, dt))
 			}
+		}
+		// request trees nested as deep as the 16-bit length fields allow (9 362 levels) and one level beyond
+		vdepths := []int{2000, 9361, 9362, 9363}
+		for _, d := range vdepths {
+			m := rscp.Message{Tag: rscp.INFO_REQ_UTC_TIME, DataType: rscp.None}
+			for k := 0; k < d-1; k++ {
+				m = rscp.Message{Tag: rscp.BAT_REQ_DATA, DataType: rscp.Container, Value: []rscp.Message{m}}
+			}
+			valCase(cw, []rscp.Message{m}, fmt.Sprintf("nested depth=%d", d))
 		}
 		// values that contain themselves, under a few data types, top level and nested: refused like any other wrong value
 		for k, v := range selfReferential() {
@@ -1077,4 +1116,38 @@ func init() {
 func writeWith(rec *recorder, ms []rscp.Message) ([]byte, error) {
 	var m cipher.BlockMode = rec
 	return rscp.Write(&m, ms, true)
+}
+
+// concurrentUnknownTags: 8 goroutines × 40 frames × 20 fresh unknown tags each
+func concurrentUnknownTags(cw *caseWriter, stream string) {
+	about("dec (frames of 20 items with fresh unknown tags 0x7f8xxxxx, decoded on 8 goroutines at once)")
+	var wgc sync.WaitGroup
+	bad := make([]string, 8)
+	for w := 0; w < 8; w++ {
+		wgc.Add(1)
+		go func(w int) {
+			defer wgc.Done()
+			for round := 0; round < 40; round++ {
+				var items []byte
+				var ms []rscp.Message
+				for j := 0; j < 20; j++ {
+					t := 0x7f800000 | uint32(w)<<16 | uint32(round)<<8 | uint32(j)
+					items = append(items, itemBytes(t, 3, []byte{byte(j)})...)
+					ms = append(ms, rscp.Message{Tag: rscp.Tag(t), DataType: rscp.UChar8, Value: uint8(j)})
+				}
+				p := padBlocks(frameBytes(items, true, 1, 2))
+				if got := readChunksSeq(identityMode{}, [][]byte{p}, false)[0]; got != "ok "+msgsString(ms) {
+					bad[w] = got
+				}
+			}
+		}(w)
+	}
+	wgc.Wait()
+	prop := "pass"
+	for _, b := range bad {
+		if b != "" {
+			prop = "FAIL * decoding on several goroutines at once gives another result: " + trunc(b, 100)
+		}
+	}
+	cw.add("skip", "skip", "N "+stream+" concurrent-unknown-tags", prop)
 }
